@@ -344,7 +344,8 @@ pub fn c02_cci() {
 		}
 		let mad = s / (n as ValueType);
 		// the quotient is exempt where its denominator is within the allowance of zero (DESIGN §4)
-		rsx::assume(mad == 0.0 || mad > 0.001);
+		// (relative to the magnitude of the history: the allowance scales with it)
+		rsx::assume(mad == 0.0 || mad > 0.001 * r_maxabs(&hist));
 		let y = m.next(&x);
 		let r = if mad > 0.0 { (x - mu) / mad } else { 0.0 };
 		rsx::close("cci.next", y, r, 4096.0 * scale);
